@@ -68,6 +68,17 @@ def rule_adjoint(ctx: Ctx, rels: List[str]) -> None:
             p = parent(site)
             conj = _is_conj_call(inner) or (isinstance(p, ast.Call) and call_attr(p) in CONJ and site in p.args) \
                 or (isinstance(p, ast.Attribute) and p.attr in CONJ)
+            if not conj and fn is not None:
+                from ..core import deref
+                # the conjugate may have been given a name first (`c = np.conjugate(k); np.transpose(c)`), or the transpose may be named and
+                # conjugated in the next step (`t = k.T; np.conjugate(t)`)
+                if isinstance(inner, ast.Name) and _is_conj_call(deref(fn, inner)):
+                    conj = True
+                elif isinstance(p, ast.Assign) and len(p.targets) == 1 and isinstance(p.targets[0], ast.Name):
+                    t_ = p.targets[0].id
+                    uses = [x for x in ast.walk(fn) if isinstance(x, ast.Name) and x.id == t_ and isinstance(x.ctx, ast.Load)]
+                    if uses and all(isinstance(parent(u), ast.Call) and call_attr(parent(u)) in CONJ for u in uses):
+                        conj = True
             if conj:
                 ctx.ok("num.adjoint", m, site)
             else:
